@@ -4,9 +4,9 @@ for ID in "$@"; do
   for d in seeded/$ID-*; do
     [ -d $d ] || continue
     P=$d/patch.diff; [ -f $d/patch.rebased.diff ] && P=$d/patch.rebased.diff
-    out=$(MUT_LINES=1 ./mut.sh $P $ID 2>&1)
+    out=$(MUT_LINES=6 ./mut.sh $P $ID 2>&1)
     st=$(echo "$out" | grep -E "^(MUTANT|PATCH)" | tail -1)
-    key=$(echo "$out" | grep -o "key=[^ ]*" | head -1)
+    key=$(echo "$out" | grep "^VIOLATION" | grep -o "key=[^ ]*" | head -1)
     echo "$(basename $d): $st $key" >> .work/mutres2.log
   done
 done
